@@ -652,7 +652,7 @@ class SQLBuilder(object):
     def MINUTE(builder, expr):
         return 'EXTRACT(MINUTE FROM ', builder(expr), ')'
     def SECOND(builder, expr):
-        return 'EXTRACT(SECOND FROM ', builder(expr), ')'
+        return 'FLOOR(EXTRACT(SECOND FROM ', builder(expr), '))'  # the seconds field includes fractional seconds
     def RANDOM(builder):
         return 'RAND()'
     def RAWSQL(builder, sql):
